@@ -147,9 +147,11 @@ func c17MQTTTeardown(c *core.Ctx, clientsF *types.Var, brokerT *types.Named) {
 	// removeClient must exist and delete; every delete site of the package is then checked
 	if f := fn(c, mq, "Broker", "removeClient"); f != nil {
 		n := 0
-		for _, call := range calls(f.Body, false) {
-			if b, ok := f.Callee(call).(*types.Builtin); ok && b.Name() == "delete" && len(call.Args) == 2 && c17Field(f, call.Args[0]) == clientsF {
-				n++
+		for _, g := range reach(f, 3) {
+			for _, call := range calls(g.Body, false) {
+				if b, ok := g.Callee(call).(*types.Builtin); ok && b.Name() == "delete" && len(call.Args) == 2 && c17Field(g, call.Args[0]) == clientsF {
+					n++
+				}
 			}
 		}
 		if n == 0 {
@@ -159,6 +161,22 @@ func c17MQTTTeardown(c *core.Ctx, clientsF *types.Var, brokerT *types.Named) {
 	}
 	pkg := c.Prog.Pkg(mq)
 	nSites := 0
+	var allFuncs []*flow.Func
+	for _, file := range pkg.Syntax {
+		for _, d := range file.Decls {
+			if x, ok := d.(*ast.FuncDecl); ok && x.Body != nil {
+				allFuncs = append(allFuncs, flow.NewFunc(pkg, x))
+			}
+		}
+	}
+	takesLock := func(h *flow.Func) bool {
+		for _, call := range calls(h.Body, false) {
+			if op, recv := c17Mutex(h, call); op == "Lock" && c17IsBrokerExpr(h, recv, brokerT) {
+				return true
+			}
+		}
+		return false
+	}
 	for _, file := range pkg.Syntax {
 		for _, d := range file.Decls {
 			fd, ok := d.(*ast.FuncDecl)
@@ -169,7 +187,12 @@ func c17MQTTTeardown(c *core.Ctx, clientsF *types.Var, brokerT *types.Named) {
 			for _, call := range calls(fd.Body, false) {
 				if b, ok := f.Callee(call).(*types.Builtin); ok && b.Name() == "delete" && len(call.Args) == 2 && c17Field(f, call.Args[0]) == clientsF {
 					nSites++
-					c17MQTTDelete(c, f, declName(pkg, fd), call, clientsF, brokerT)
+					// analysed from where the protecting lock is taken (delete moved into a helper
+					// called under the lock → its callers)
+					for _, root := range c17LockRoots(f, allFuncs, takesLock) {
+						rfd, _ := root.Node.(*ast.FuncDecl)
+						c17MQTTDelete(c, root, declName(pkg, rfd), call, clientsF, brokerT)
+					}
 				}
 			}
 		}
@@ -187,42 +210,15 @@ func c17MQTTDelete(c *core.Ctx, f *flow.Func, decl string, del *ast.CallExpr, cl
 	c.Count("functions_analysed", 1)
 	consLock := decl + "|deletes the entry under the write lock"
 	consDead := decl + "|delete removes only a dead or own entry"
-	// single-assignment canonicalisation (as for the insertion)
+	bind := c17NewBind(f, 3)
 	assignCount := map[types.Object]int{}
-	assignRHS := map[types.Object]ast.Expr{}
-	ast.Inspect(f.Body, func(n ast.Node) bool {
-		switch x := n.(type) {
-		case *ast.AssignStmt:
-			for i, l := range x.Lhs {
-				if o := c17Obj(f, l); o != nil {
-					assignCount[o]++
-					assignRHS[o] = nil
-					if len(x.Lhs) == len(x.Rhs) {
-						assignRHS[o] = x.Rhs[i]
-					}
-				}
-			}
-		case *ast.RangeStmt:
-			for _, e := range []ast.Expr{x.Key, x.Value} {
-				if e != nil {
-					if o := c17Obj(f, e); o != nil {
-						assignCount[o] += 2
-					}
-				}
-			}
+	for o, rhs := range bind.asg {
+		assignCount[o] = len(rhs)
+		if bind.dirty[o] {
+			assignCount[o] += 2
 		}
-		return true
-	})
-	var canon func(e ast.Expr, depth int) string
-	canon = func(e ast.Expr, depth int) string {
-		e = ast.Unparen(e)
-		if o := c17Obj(f, e); o != nil && depth < 3 {
-			if v, ok := o.(*types.Var); ok && !v.IsField() && !isParam(f, v) && assignCount[o] == 1 && assignRHS[o] != nil {
-				return canon(assignRHS[o], depth+1)
-			}
-		}
-		return f.Render(e)
 	}
+	canon := func(e ast.Expr, _ int) string { return bind.canon(e) }
 	delKey := canon(del.Args[1], 0)
 
 	type lookup struct {
@@ -236,7 +232,17 @@ func c17MQTTDelete(c *core.Ctx, f *flow.Func, decl string, del *ast.CallExpr, cl
 		closed string
 	}
 	var lookups []*lookup
-	ast.Inspect(f.Body, func(n ast.Node) bool {
+	eachNode := func(visit func(n ast.Node) bool) {
+		for _, h := range bind.funcs {
+			ast.Inspect(h.Body, func(n ast.Node) bool {
+				if n == nil {
+					return true
+				}
+				return visit(n)
+			})
+		}
+	}
+	eachNode(func(n ast.Node) bool {
 		as, ok := n.(*ast.AssignStmt)
 		if !ok || len(as.Rhs) != 1 {
 			return true
@@ -267,7 +273,7 @@ func c17MQTTDelete(c *core.Ctx, f *flow.Func, decl string, del *ast.CallExpr, cl
 		if l.val == nil {
 			continue
 		}
-		ast.Inspect(f.Body, func(n ast.Node) bool {
+		eachNode(func(n ast.Node) bool {
 			switch x := n.(type) {
 			case *ast.CallExpr:
 				if calleeIs(f, x, "(*"+mq+".Client).disconnected") {
@@ -328,7 +334,31 @@ func c17MQTTDelete(c *core.Ctx, f *flow.Func, decl string, del *ast.CallExpr, cl
 	}
 	var badLock, badDead *flow.State
 	nStates := 0
+	inl := bind.inline(func(h *flow.Func, n ast.Node) bool {
+		switch x := n.(type) {
+		case *ast.AssignStmt:
+			for _, l := range lookups {
+				if l.stmt == x {
+					return true
+				}
+			}
+		case *ast.CallExpr:
+			if x == del {
+				return true
+			}
+			if op, recv := c17Mutex(h, x); op != "" && isBroker(recv) {
+				return true
+			}
+		}
+		return false
+	})
 	res := analyze(c, f, flow.Config{NoHavoc: true,
+		Inline: func(call *ast.CallExpr, callee *types.Func) *flow.Func {
+			if calleeIs(f, call, "(*"+mq+".Client).close", "(*"+mq+".Client).closeAndDelSession") {
+				return nil // modelled by an event
+			}
+			return inl(call, callee)
+		},
 		OnNode: func(st *flow.State, n ast.Node) {
 			for _, l := range lookups {
 				if n == ast.Node(l.stmt) {
@@ -393,8 +423,7 @@ func c17MQTTDelete(c *core.Ctx, f *flow.Func, decl string, del *ast.CallExpr, cl
 
 func c17MQTTSite(c *core.Ctx, pkg *packages.Package, fd *ast.FuncDecl, ins *ast.AssignStmt, insKey ast.Expr,
 	clientsF, capF *types.Var, brokerT *types.Named, refused constant.Value) {
-	f := flow.NewFunc(pkg, fd)
-	cons := declName(pkg, fd)
+	g := flow.NewFunc(pkg, fd)
 	// an insertion inside a function literal is analysed in the literal
 	var lit *ast.FuncLit
 	ast.Inspect(fd.Body, func(n ast.Node) bool {
@@ -403,63 +432,76 @@ func c17MQTTSite(c *core.Ctx, pkg *packages.Package, fd *ast.FuncDecl, ins *ast.
 		}
 		return true
 	})
-	var body ast.Node = fd.Body
 	if lit != nil {
-		f = f.Lit(lit)
-		body = lit.Body
-		cons += "$closure"
+		c17MQTTSiteIn(c, pkg, g.Lit(lit), declName(pkg, fd)+"$closure", ins, insKey, clientsF, capF, brokerT, refused)
+		return
 	}
-	c.Count("functions_analysed", 1)
+	// the function to analyse is the one in which the protecting lock is visible: the function
+	// holding the insertion, or (insertion moved into a helper called under the lock) its callers
+	var all []*flow.Func
+	for _, file := range pkg.Syntax {
+		for _, d := range file.Decls {
+			if x, ok := d.(*ast.FuncDecl); ok && x.Body != nil {
+				all = append(all, flow.NewFunc(pkg, x))
+			}
+		}
+	}
+	takes := func(h *flow.Func) bool {
+		found := false
+		for _, call := range calls(h.Body, false) {
+			if op, recv := c17Mutex(h, call); op == "Lock" && c17IsBrokerExpr(h, recv, brokerT) {
+				found = true
+			}
+		}
+		return found
+	}
+	for _, root := range c17LockRoots(g, all, takes) {
+		// a helper with a single synchronous call site is analysed from its caller (interpreted in
+		// place): the relation between its parameters (cid / client) and what happens to the
+		// registered client after it returns are visible only there
+		root = c17Ascend(root, all, 2)
+		rfd, _ := root.Node.(*ast.FuncDecl)
+		c17MQTTSiteIn(c, pkg, root, declName(pkg, rfd), ins, insKey, clientsF, capF, brokerT, refused)
+	}
+}
 
-	// ---- single-assignment canonicalisation of key expressions
-	assignCount := map[types.Object]int{}
-	assignRHS := map[types.Object]ast.Expr{}
-	ast.Inspect(fd.Body, func(n ast.Node) bool {
-		switch x := n.(type) {
-		case *ast.AssignStmt:
-			for i, l := range x.Lhs {
-				if o := c17Obj(f, l); o != nil {
-					assignCount[o]++
-					if len(x.Lhs) == len(x.Rhs) {
-						assignRHS[o] = x.Rhs[i]
-					} else {
-						assignRHS[o] = nil
-					}
-				}
-			}
-		case *ast.IncDecStmt:
-			if o := c17Obj(f, x.X); o != nil {
-				assignCount[o] += 2
-			}
-		case *ast.RangeStmt:
-			for _, e := range []ast.Expr{x.Key, x.Value} {
-				if e != nil {
-					if o := c17Obj(f, e); o != nil {
-						assignCount[o] += 2
-					}
-				}
-			}
-		case *ast.UnaryExpr:
-			if x.Op == token.AND {
-				if o := c17Obj(f, x.X); o != nil {
-					assignCount[o] += 2
-				}
-			}
+// c17IsBrokerExpr: recv is the broker (its embedded mutex is locked through it) or a mutex field of it.
+func c17IsBrokerExpr(f *flow.Func, recv ast.Expr, brokerT *types.Named) bool {
+	if tv := f.Info.Types[recv]; tv.Type != nil {
+		t := tv.Type
+		if p, ok := t.(*types.Pointer); ok {
+			t = p.Elem()
 		}
-		return true
-	})
-	var canon func(e ast.Expr, depth int) string
-	canon = func(e ast.Expr, depth int) string {
-		e = ast.Unparen(e)
-		if o := c17Obj(f, e); o != nil && depth < 3 {
-			if v, ok := o.(*types.Var); ok && !v.IsField() && !isParam(flow.NewFunc(pkg, fd), v) &&
-				assignCount[o] == 1 && assignRHS[o] != nil {
-				return canon(assignRHS[o], depth+1)
-			}
+		if types.Identical(t, brokerT) {
+			return true
 		}
-		return f.Render(e)
 	}
-	insCanon := canon(insKey, 0)
+	if fld := c17Field(f, recv); fld != nil {
+		for _, m := range append(c17FieldsByType(brokerT, "sync.Mutex"), c17FieldsByType(brokerT, "sync.RWMutex")...) {
+			if m == fld {
+				return true
+			}
+		}
+	}
+	return false
+}
+
+func c17MQTTSiteIn(c *core.Ctx, pkg *packages.Package, f *flow.Func, cons string, ins *ast.AssignStmt, insKey ast.Expr,
+	clientsF, capF *types.Var, brokerT *types.Named, refused constant.Value) {
+	c.Count("functions_analysed", 1)
+	bind := c17NewBind(f, 3)
+	eachNode := func(visit func(n ast.Node) bool) {
+		for _, h := range bind.funcs {
+			ast.Inspect(h.Body, func(n ast.Node) bool {
+				if n == nil {
+					return true
+				}
+				return visit(n)
+			})
+		}
+	}
+	single := func(o types.Object) bool { return o != nil && len(bind.asg[o]) == 1 && !bind.dirty[o] }
+	insCanon := bind.canon(insKey)
 
 	// ---- atoms
 	isLenClients := func(e ast.Expr) bool {
@@ -472,18 +514,9 @@ func c17MQTTSite(c *core.Ctx, pkg *packages.Package, fd *ast.FuncDecl, ins *ast.
 		}
 		return c17Field(f, call.Args[0]) == clientsF
 	}
-	// the cap: Spec.MaxAllowedConnection or a local assigned exactly once from it (the spec is
-	// immutable for the lifetime of a broker, so a snapshot is as good as the field)
-	isCap := func(e ast.Expr) bool {
-		e = c17StripConv(f, e)
-		if c17Field(f, e) == capF {
-			return true
-		}
-		if o := c17Obj(f, e); o != nil && assignCount[o] == 1 && assignRHS[o] != nil {
-			return c17Field(f, c17StripConv(f, assignRHS[o])) == capF
-		}
-		return false
-	}
+	// the cap: Spec.MaxAllowedConnection, possibly through a single-assignment local or a parameter
+	// (the spec is immutable for the lifetime of a broker, so a snapshot is as good as the field)
+	isCap := func(e ast.Expr) bool { return bind.fieldOf(e) == capF }
 	constInt := func(e ast.Expr) (int64, bool) {
 		if tv := f.Info.Types[e]; tv.Value != nil && tv.Value.Kind() == constant.Int {
 			return constant.Int64Val(tv.Value)
@@ -491,7 +524,7 @@ func c17MQTTSite(c *core.Ctx, pkg *packages.Package, fd *ast.FuncDecl, ins *ast.
 		return 0, false
 	}
 	var roomAtoms, enabledAtoms []c17Atom
-	ast.Inspect(body, func(n ast.Node) bool {
+	eachNode(func(n ast.Node) bool {
 		be, ok := n.(*ast.BinaryExpr)
 		if !ok {
 			return true
@@ -525,26 +558,26 @@ func c17MQTTSite(c *core.Ctx, pkg *packages.Package, fd *ast.FuncDecl, ins *ast.
 		ev      string
 	}
 	var lookups []lookup
-	ast.Inspect(body, func(n ast.Node) bool {
+	eachNode(func(n ast.Node) bool {
 		as, ok := n.(*ast.AssignStmt)
 		if !ok || len(as.Rhs) != 1 {
 			return true
 		}
 		ix, ok := ast.Unparen(as.Rhs[0]).(*ast.IndexExpr)
-		if !ok || c17Field(f, ix.X) != clientsF || canon(ix.Index, 0) != insCanon {
+		if !ok || c17Field(f, ix.X) != clientsF || bind.canon(ix.Index) != insCanon {
 			return true
 		}
 		ev := "ev:c17:lookup-locked@" + f.Pos(as.Pos())
 		switch len(as.Lhs) {
 		case 2:
 			if id, ok := as.Lhs[1].(*ast.Ident); ok && id.Name != "_" {
-				if o := c17Obj(f, id); o != nil && assignCount[o] == 1 {
+				if o := c17Obj(f, id); single(o) {
 					lookups = append(lookups, lookup{as, f.VarKey(id), flow.True, ev})
 				}
 			}
 		case 1:
 			if id, ok := as.Lhs[0].(*ast.Ident); ok && id.Name != "_" {
-				if o := c17Obj(f, id); o != nil && assignCount[o] == 1 {
+				if o := c17Obj(f, id); single(o) {
 					lookups = append(lookups, lookup{as, f.NilKey(id), flow.False, ev})
 				}
 			}
@@ -568,7 +601,7 @@ func c17MQTTSite(c *core.Ctx, pkg *packages.Package, fd *ast.FuncDecl, ins *ast.
 	var valObj types.Object
 	for i, l := range ins.Lhs {
 		if ix, ok := ast.Unparen(l).(*ast.IndexExpr); ok && c17Field(f, ix.X) == clientsF && len(ins.Lhs) == len(ins.Rhs) {
-			valObj = c17Obj(f, ins.Rhs[i])
+			valObj = bind.canonObj(ins.Rhs[i])
 		}
 	}
 	room3 := func(st *flow.State) flow.Val {
@@ -717,7 +750,45 @@ func c17MQTTSite(c *core.Ctx, pkg *packages.Package, fd *ast.FuncDecl, ins *ast.
 	}
 	var badIns []bad
 	insStates := 0
+	// interpret in place the helpers that contain the cap test, the lookup, the insertion or a
+	// broker lock operation ("extract function" under the lock)
+	isLookup := func(n ast.Node) bool {
+		for _, l := range lookups {
+			if n == l.stmt {
+				return true
+			}
+		}
+		return false
+	}
+	inl := bind.inline(func(h *flow.Func, n ast.Node) bool {
+		switch x := n.(type) {
+		case *ast.AssignStmt:
+			return x == ins || isLookup(x)
+		case *ast.BinaryExpr:
+			for _, a := range roomAtoms {
+				if a.e == x {
+					return true
+				}
+			}
+		case *ast.CallExpr:
+			if op, recv := c17Mutex(h, x); op != "" && isBrokerLock(recv) {
+				return true
+			}
+			// who takes responsibility for the registered client
+			if calleeIs(h, x, "(*"+mq+".Client).readLoop", "(*"+mq+".Broker).removeClient", "(*"+mq+".Broker).deleteSession") {
+				return true
+			}
+		}
+		return false
+	})
 	res := analyze(c, f, flow.Config{
+		Inline: func(call *ast.CallExpr, callee *types.Func) *flow.Func {
+			if calleeIs(f, call, "(*"+mq+".Client).readLoop", "(*"+mq+".Broker).removeClient", "(*"+mq+".Broker).deleteSession",
+				"(*"+mq+".Client).closeAndDelSession", "(*"+mq+".Client).close") {
+				return nil // modelled by events
+			}
+			return inl(call, callee)
+		},
 		OnNode: func(st *flow.State, n ast.Node) {
 			latch(st)
 			for _, l := range lookups {
@@ -791,7 +862,7 @@ func c17MQTTSite(c *core.Ctx, pkg *packages.Package, fd *ast.FuncDecl, ins *ast.
 			}
 			switch {
 			case calleeIs(f, call, "(*"+mq+".Client).readLoop"):
-				if sel, ok := ast.Unparen(call.Fun).(*ast.SelectorExpr); ok && (valObj == nil || c17Obj(f, sel.X) == valObj) {
+				if sel, ok := ast.Unparen(call.Fun).(*ast.SelectorExpr); ok && (valObj == nil || bind.canonObj(sel.X) == valObj) {
 					st.Set(evRan, flow.True)
 				}
 			case calleeIs(f, call, "(*"+mq+".Broker).removeClient"), calleeIs(f, call, "(*"+mq+".Broker).deleteSession"):
